@@ -98,7 +98,7 @@ class UFProblem:
     multiplier' visible to the solver).  Created through make_problem()."""
 
 
-def make_problem(E, var_kinds, cons_kinds, fmt="coo", jac_pattern=None, hess_pattern=None, policy="fresh", tag="", faults=None, log=None):
+def make_problem(E, var_kinds, cons_kinds, fmt="coo", jac_pattern=None, hess_pattern=None, policy="fresh", tag="", faults=None, log=None, point_faults=None):
     """returns (problem, spec).  spec carries the symbolic bounds and the call log."""
     Problem = boot.mod("problem").Problem
     np = boot.np
@@ -124,6 +124,14 @@ def make_problem(E, var_kinds, cons_kinds, fmt="coo", jac_pattern=None, hess_pat
         return "<".join(chain) if chain else "?"
 
     def flag(kind, v):
+        if point_faults is not None:
+            xs = calls[-1][1]
+            b = point_faults(kind, xs)
+            if b is False:
+                return v
+            if boot.MODE == "sym":
+                return core.SR(core.zexpr(v), bad=core._be(b))
+            return float("nan") if b else v
         if faults is None:
             return v
         return faults(kind, v, len(calls))
